@@ -3,7 +3,7 @@
 //! anything.
 
 use crate::parser::State;
-use crate::{Line, Pen};
+use crate::Pen;
 
 #[derive(Debug, Clone, PartialEq)]
 pub struct SavedCtxState {
@@ -41,7 +41,6 @@ pub struct VerifState {
     pub scrollback_limit: Option<usize>,
     pub buffer: BufferState,
     pub other_buffer: BufferState,
-    pub other_lines: Vec<Line>,
     pub pending_wrap: bool,
     pub pen: Pen,
     /// true = DEC special graphics
